@@ -145,6 +145,206 @@ func proxyScenario(x *explore.X) {
 	finish(x, w, org)
 }
 
+// ---- sessions one after the other on ONE proxy ---------------------------------------------------------------------
+
+var sessionKinds = []struct {
+	name, host string
+	mitm, bad  bool
+}{
+	{"tunnel(passthrough.test)", "passthrough.test", false, false},
+	{"mitm(good.test)", "good.test", true, false},
+	{"mitm(wrongname.test)", "wrongname.test", true, true},
+	{"mitm(expired.test)", "expired.test", true, true},
+}
+
+// sessionsScenario: MITM with one excluded host, optionally behind an HTTP or HTTPS upstream proxy; every
+// sequence of n sessions. What a session must look like does not depend on the sessions before it: an
+// excluded host is tunnelled untouched, an intercepted session gets a certificate valid for its name, an
+// origin whose certificate does not verify for the requested name receives no request.
+func sessionsScenario(x *explore.X, n int) {
+	upKind := x.ChooseFree("upstream", 3) // 0 none, 1 http proxy, 2 https proxy
+	var seq []int
+	for i := 0; i < n; i++ {
+		seq = append(seq, x.ChooseFree(fmt.Sprintf("session-%d", i), len(sessionKinds)))
+	}
+	pki := world.NewPKI("harness origin CA")
+	opts := world.Options{MITM: true, TransportCAPEM: pki.CAPEM, MITMDomains: []string{`.*`, `-^passthrough\.test$`}}
+	upAddr := ""
+	var outer *tls.Config
+	switch upKind {
+	case 1:
+		opts.Upstream, upAddr = "http://up.test:8080", "up.test:8080"
+	case 2:
+		opts.Upstream, upAddr = "https://ups.test:8443", "ups.test:8443"
+		outer = &tls.Config{Certificates: []tls.Certificate{pki.Leaf([]string{"ups.test"}, -time.Hour, time.Hour)}}
+	}
+	w, err := world.Start(opts)
+	if err != nil {
+		x.Failf("harness/start", "%v", err)
+		return
+	}
+	leaves := map[string]tls.Certificate{
+		"passthrough.test": pki.Leaf([]string{"passthrough.test"}, -time.Hour, time.Hour),
+		"good.test":        pki.Leaf([]string{"good.test"}, -time.Hour, time.Hour),
+		// valid, trusted, but for every OTHER name in play - never for wrongname.test
+		"wrongname.test": pki.Leaf([]string{"ups.test", "up.test", "passthrough.test", "good.test", "expired.test", "elsewhere.test"}, -time.Hour, time.Hour),
+		"expired.test":   pki.Leaf([]string{"expired.test"}, -3*time.Hour, -time.Hour),
+	}
+	cfgFor := func(authority string) *tls.Config {
+		h, _, _ := net.SplitHostPort(authority)
+		l, ok := leaves[h]
+		if !ok {
+			return nil
+		}
+		return &tls.Config{Certificates: []tls.Certificate{l}}
+	}
+	servers := map[string]*world.Server{}
+	addrs := []string{"passthrough.test:443", "good.test:443", "wrongname.test:443", "expired.test:443"}
+	if upAddr != "" {
+		addrs = append(addrs, upAddr)
+	}
+	for _, a := range addrs {
+		sv, err := w.Server(a)
+		if err != nil {
+			x.Failf("harness/listen", "%v", err)
+			return
+		}
+		servers[a] = sv
+	}
+	// origin returns the TLS session of the origin for host, if the proxy has opened a connection for it
+	origin := func(host string) *world.TLSPeer {
+		if upAddr != "" {
+			p := servers[upAddr].Accept()
+			if p == nil {
+				return nil
+			}
+			return world.UpstreamProxyThenTLS(p, outer, cfgFor)
+		}
+		p := servers[host+":443"].Accept()
+		if p == nil {
+			return nil
+		}
+		return world.TLSServer(p, cfgFor(host+":443"))
+	}
+	roots := x509.NewCertPool()
+	roots.AddCert(w.Proxy.MITMCACert())
+	var names, out []string
+	var open []interface{ Close() }
+	for _, k := range seq {
+		sk := sessionKinds[k]
+		names = append(names, sk.name)
+		what := fmt.Sprintf("upstream %q, session %s after %v", opts.Upstream, sk.name, names[:len(names)-1])
+		raw, _ := w.Client()
+		open = append(open, raw)
+		raw.Send([]byte("CONNECT " + sk.host + ":443 HTTP/1.1\r\nHost: " + sk.host + ":443\r\n\r\n"))
+		world.Settle(time.Second)
+		var org *world.TLSPeer
+		if !sk.mitm {
+			if org = origin(sk.host); org == nil {
+				x.Failf("excluded-host/not-dialled", "%s: nobody was contacted for the tunnel; client got %q", what, world.Clip(raw.Recv()))
+				return
+			}
+			open = append(open, org)
+			world.Settle(time.Second)
+		}
+		if got := string(raw.Recv()); got != "HTTP/1.1 200 OK\r\n\r\n" {
+			x.Failf("connect-reply", "%s: CONNECT answered %q", what, got)
+			return
+		}
+		x.Check()
+		if !sk.mitm {
+			tc := world.TLSClient(raw, &tls.Config{ServerName: sk.host, RootCAs: pki.Pool()})
+			open = append(open, tc)
+			world.Settle(time.Second)
+			if done, herr := tc.Handshake(); !done || herr != nil {
+				x.Failf("excluded-host/handshake", "%s: handshake through the untouched tunnel failed: done=%v err=%v", what, done, herr)
+				return
+			}
+			if pc := tc.State().PeerCertificates; len(pc) == 0 || !pc[0].Equal(leaves[sk.host].Leaf) {
+				x.Failf("excluded-host-intercepted", "%s: the client did not receive the origin's own certificate", what)
+				return
+			}
+			tc.Send([]byte("GET /t HTTP/1.1\r\nHost: " + sk.host + "\r\n\r\n"))
+			if !strings.HasPrefix(string(org.Recv()), "GET /t ") {
+				x.Failf("excluded-host/bytes", "%s: origin holds %q", what, world.Clip(org.Recv()))
+				return
+			}
+			out = append(out, "tunnelled")
+			continue
+		}
+		tc := world.TLSClient(raw, &tls.Config{ServerName: sk.host, InsecureSkipVerify: true})
+		open = append(open, tc)
+		if done, herr := tc.Handshake(); !done || herr != nil {
+			x.Failf("mitm-handshake-failed", "%s: TLS handshake with the interceptor failed: done=%v err=%v", what, done, herr)
+			return
+		}
+		pcs := tc.State().PeerCertificates
+		inter := x509.NewCertPool()
+		for _, c := range pcs[1:] {
+			inter.AddCert(c)
+		}
+		if _, err := pcs[0].Verify(x509.VerifyOptions{DNSName: sk.host, Roots: roots, Intermediates: inter, CurrentTime: time.Now()}); err != nil {
+			x.Failf("mitm-certificate-invalid", "%s: the certificate presented to the client does not verify for %q: %v", what, sk.host, err)
+		}
+		tc.Send([]byte("GET /x HTTP/1.1\r\nHost: " + sk.host + "\r\n\r\n"))
+		world.Settle(time.Second)
+		org = origin(sk.host)
+		if org != nil {
+			open = append(open, org)
+			world.Settle(5 * time.Second)
+		}
+		var got []byte
+		if org != nil {
+			got = org.Recv()
+		}
+		if sk.bad {
+			if len(got) != 0 {
+				x.Failf("origin-verification-bypassed", "%s: the origin's certificate does not verify for %s but the origin received %q", what, sk.host, world.Clip(got))
+				return
+			}
+			rs := httpwire.ParseResponses(tc.Recv(), []string{"GET"}, false)
+			if len(rs.Msgs) != 1 || rs.Msgs[0].Status/100 != 5 || !rs.Msgs[0].Has("X-Forwarder-Error") {
+				x.Failf("no-error-response", "%s: want an error response, client got %q", what, world.Clip(tc.Recv()))
+				return
+			}
+			out = append(out, "origin-rejected")
+		} else {
+			if !strings.HasPrefix(string(got), "GET /x ") {
+				hs := "no connection"
+				if org != nil {
+					_, e := org.Handshake()
+					hs = fmt.Sprintf("origin handshake error %v, upstream CONNECT %q", e, org.Connect)
+				}
+				x.Failf("not-forwarded", "%s: the request did not reach the origin (%s); client got %q", what, hs, world.Clip(tc.Recv()))
+				return
+			}
+			org.Send([]byte("HTTP/1.1 200 OK\r\nContent-Length: 2\r\nConnection: close\r\n\r\nok"))
+			if rs := httpwire.ParseResponses(tc.Recv(), []string{"GET"}, false); len(rs.Msgs) != 1 || rs.Msgs[0].Status != 200 {
+				x.Failf("not-answered", "%s: client got %q", what, world.Clip(tc.Recv()))
+				return
+			}
+			out = append(out, "forwarded")
+		}
+	}
+	x.Outcome(strings.Join(out, ","))
+	for i := len(open) - 1; i >= 0; i-- {
+		open[i].Close()
+	}
+	if err := w.Stop(); err != nil {
+		x.Failf("shutdown", "%v", err)
+	}
+	for _, sv := range servers {
+		sv.L.Close()
+		for p := sv.Accept(); p != nil; p = sv.Accept() {
+			p.Close()
+		}
+	}
+	world.Settle(5 * time.Second)
+	if l := world.Leaks(); l != "" {
+		x.Failf("goroutine-leak", "%s", l)
+	}
+}
+
 func finish(x *explore.X, w *world.World, org *world.Hop) {
 	if err := w.Stop(); err != nil {
 		x.Failf("shutdown", "%v", err)
@@ -158,10 +358,14 @@ func finish(x *explore.X, w *world.World, org *world.Hop) {
 
 func TestC07(t *testing.T) {
 	s := explore.NewSuite(t, "C07", "model_checking",
-		"(cache core, in-package) mitm.Config.cert on the virtual clock over a cache of capacity 1-2 with TTL 30 min / 3 h and validity 1 h: EVERY sequence of depth 3 (quick) / 4 (thorough) over {cert(name) for 11 names incl. case variants, IPv4/IPv6 literals, host:port forms, an IDN and a wildcard-looking name; advance the clock by TTL/2, TTL+1min, validity+1min}; states = call/clock histories; every returned certificate is verified with crypto/x509 against the CA for the requested host at the current virtual time and its key is compared with the handshake key; TLSForHost with and without SNI; N=2-4 goroutines calling cert concurrently for colliding names over 1-2 rounds with expiry in between; 2-3 scheduler threads calling cert with every interleaving of their Get/verify/create/Add steps within the preemption bound; (proxy) CONNECT authority(5: name, upper case, IPv4, IPv6, non-default port) x SNI(same, absent, different) x origin certificate(valid, expired, wrong name, untrusted) x insecure x mitm-domains(none, include, exclude), deviation-bounded (D=3 quick, 5 thorough=full): the chain presented to the client must verify for the name it asked for; a non-verifying origin receives no request and the client an error response; excluded hosts are tunnelled (client sees the origin's own certificate)")
+		"(cache core, in-package) mitm.Config.cert on the virtual clock over a cache of capacity 1-2 with TTL 30 min / 3 h and validity 1 h: EVERY sequence of depth 3 (quick) / 4 (thorough) over {cert(name) for 11 names incl. case variants, IPv4/IPv6 literals, host:port forms, an IDN and a wildcard-looking name; advance the clock by TTL/2, TTL+1min, validity+1min}; states = call/clock histories; every returned certificate is verified with crypto/x509 against the CA for the requested host at the current virtual time and its key is compared with the handshake key; TLSForHost with and without SNI; N=2-4 goroutines calling cert concurrently for colliding names over 1-2 rounds with expiry in between; 2-3 scheduler threads calling cert with every interleaving of their Get/verify/create/Add steps within the preemption bound; (proxy) CONNECT authority(5: name, upper case, IPv4, IPv6, non-default port) x SNI(same, absent, different) x origin certificate(valid, expired, wrong name, untrusted) x insecure x mitm-domains(none, include, exclude), deviation-bounded (D=3 quick, 5 thorough=full): the chain presented to the client must verify for the name it asked for; a non-verifying origin receives no request and the client an error response; excluded hosts are tunnelled (client sees the origin's own certificate); (sessions-on-one-proxy) ONE proxy with MITM and one excluded host, upstream {none, http proxy, https proxy}, EVERY sequence of 2 (quick) / 4 (thorough) sessions out of {tunnel to the excluded host, intercepted session to an origin with a valid / wrong-name (valid for every other name in play) / expired certificate}: each session is judged as if it were the first")
 	s.Assume = []string{"crypto/x509 and crypto/tls are the verifiers", "the cache-core harness builds mitm.Config field by field like NewConfigWithCache but reuses one RSA leaf key per process", "(interleaved-callers) scheduling points are inserted at build time before every cache Get/Add of mitm.Config.cert: all interleavings of 2-3 callers with at most 2 (quick) / 3 (thorough) preemptions; the cache itself (freelru) is locked internally and treated as atomic"}
 	mitm.VerifAddCacheScenarios(t, s)
 	s.Add(explore.Scenario{Name: "through-proxy", Remote: true, MaxDev: map[string]int{"quick": 3, "thorough": 5},
 		Run: func(x *explore.X) { world.Run(t, x, func() { proxyScenario(x) }) }})
+	s.Add(explore.Scenario{Name: "sessions-on-one-proxy-quick", Remote: true, Tiers: []string{"quick"},
+		Run: func(x *explore.X) { world.Run(t, x, func() { sessionsScenario(x, 2) }) }})
+	s.Add(explore.Scenario{Name: "sessions-on-one-proxy-thorough", Remote: true, Tiers: []string{"thorough"},
+		Run: func(x *explore.X) { world.Run(t, x, func() { sessionsScenario(x, 4) }) }})
 	s.Main()
 }
